@@ -1,19 +1,17 @@
 //@ assume: siphash_block is an uninterpreted function of (keys, nonce) -- SipHash-2-4 itself is outside; CuckooParams keeps its real fields; Proof is reduced to its nonce vector; global::proofsize() is an uninterpreted constant in 1..=2^20
-//@ assume: T6 rewrites: `vec![x; n]` => helper vec_filled (n copies of x); every `Err(Error::Verification("..".to_owned()))` => `Err(verr())`; integer literal types made explicit; `for n in 0..size` loops get spliced invariants
+//@ assume: T6 rewrites: `vec![x; n]` => helper vec_filled (n copies of x); every `Err(Error::Verification("<message>".to_owned()))` => `Err(Error::<Kind>)`, one abstract kind per message, so that the contract can say WHY the input checks fail; integer literal types made explicit; `for n in 0..size` loops get spliced invariants
 //@ assume: termination of the two cycle-following loops is NOT proved: exec_allows_no_decreases_clause (it follows from the circular lists, which is proved, and from the walk being injective)
-//@ assume: decided here, for ANY proof size and any siphash outputs (no bound): CuckaroomContext::verify (Cuckaroom: a DIRECTED graph, edge n goes from node from[n] to node to[n]) never indexes out of range, and returns Ok ONLY IF the `size` edges form one simple directed cycle through all of them: starting from edge 0 and repeatedly moving to an edge that starts at the node where the current edge ends, the walk visits `size` DISTINCT edges and the last one ends where edge 0 starts; consecutive edges share their node; and no node is entered twice (the successor edge is a function of the node, so a repeated node would repeat an edge); plus nonces strictly ascending and within the edge mask. (The converse is not decided.)
+//@ assume: decided here, for ANY proof size and any siphash outputs (no bound): CuckaroomContext::verify (Cuckaroom: a DIRECTED graph, edge n goes from node from[n] to node to[n]) never indexes out of range, and returns Ok ONLY IF the `size` edges form one simple directed cycle through all of them: starting from edge 0 and repeatedly moving to an edge that starts at the node where the current edge ends, the walk visits `size` DISTINCT edges and the last one ends where edge 0 starts; consecutive edges share their node; and no node is entered twice (the successor edge is a function of the node, so a repeated node would repeat an edge); plus nonces strictly ascending and within the edge mask. The three input checks are exact: the wrong-length / edge-too-big / not-ascending errors are returned only for that reason. (The rest of the converse -- every simple cycle is accepted -- is not decided.)
 //@ assume: 64-bit target
 //@ assume: assumed: u64::leading_zeros(x) >= 1 for x < 2^63 (std intrinsic; only used to show `1 + mask` cannot overflow)
-//@ assumed_items: 7
+//@ assumed_items: 6
 //@ fns: CuckaroomContext::verify
 use vstd::std_specs::bits::*;
 global size_of usize == 8;
-pub enum Error { Verification }
+pub enum Error { WrongLen, TooBig, NotAscending, Endpoints, Branch, DeadEnd, TooShort }
 /// assumed property of the std intrinsic (vstd's axiom states only the upper-bound half in a usable form): a value below 2^63 has a leading zero
 #[verifier::external_body]
 proof fn axiom_lz_pos(x: u64) requires x < 0x8000_0000_0000_0000u64 ensures u64_leading_zeros(x) >= 1 { }
-#[verifier::external_body]
-fn verr() -> (r: Error) { unimplemented!() }
 pub struct Proof { pub nonces: Vec<u64> }
 impl Proof { pub fn proof_size(&self) -> (r: usize) ensures r == self.nonces@.len() { self.nonces.len() } }
 pub struct CuckooParams { pub proof_size: usize, pub num_edges: u64, pub siphash_keys: [u64; 4], pub edge_mask: u64, pub node_mask: u64 }
@@ -165,13 +163,13 @@ impl CuckaroomContext {
 //@ extract core/src/pow/cuckaroom.rs :: impl PoWContext for CuckaroomContext::verify
 //@   attr: #[verifier::exec_allows_no_decreases_clause]
 //@   sigrewrite `fn verify(&self, proof: &Proof)` => `pub fn verify(&self, proof: &Proof)`
-//@   rewrite `return Err(Error::Verification("wrong cycle length".to_owned()));` => `return Err(verr());`
-//@   rewrite `return Err(Error::Verification("edge too big".to_owned()));` => `return Err(verr());`
-//@   rewrite `return Err(Error::Verification("edges not ascending".to_owned()));` => `return Err(verr());`
-//@   rewrite `return Err(Error::Verification("endpoints don't match up".to_owned()));` => `return Err(verr());`
-//@   rewrite `return Err(Error::Verification("branch in cycle".to_owned()));` => `return Err(verr());`
-//@   rewrite `return Err(Error::Verification("cycle dead ends".to_owned()));` => `return Err(verr());`
-//@   rewrite `Err(Error::Verification("cycle too short".to_owned()))` => `Err(verr())`
+//@   rewrite `return Err(Error::Verification("wrong cycle length".to_owned()));` => `return Err(Error::WrongLen);`
+//@   rewrite `return Err(Error::Verification("edge too big".to_owned()));` => `return Err(Error::TooBig);`
+//@   rewrite `return Err(Error::Verification("edges not ascending".to_owned()));` => `return Err(Error::NotAscending);`
+//@   rewrite `return Err(Error::Verification("endpoints don't match up".to_owned()));` => `return Err(Error::Endpoints);`
+//@   rewrite `return Err(Error::Verification("branch in cycle".to_owned()));` => `return Err(Error::Branch);`
+//@   rewrite `return Err(Error::Verification("cycle dead ends".to_owned()));` => `return Err(Error::DeadEnd);`
+//@   rewrite `Err(Error::Verification("cycle too short".to_owned()))` => `Err(Error::TooShort)`
 //@   rewrite `let mut from = vec![0u64; size];` => `let mut from = vec_filled_u64(0u64, size);`
 //@   rewrite `let mut to = vec![0u64; size];` => `let mut to = vec_filled_u64(0u64, size);`
 //@   rewrite `let mut head = vec![size; 1 + mask as usize];` => `let mut head = vec_filled_usize(size, 1 + mask as usize);`
@@ -253,6 +251,9 @@ impl CuckaroomContext {
 //@   requires:
 //@+    self.params.proof_size == sp_proofsize(),
 //@   ensures:
+//@+    r matches Err(Error::WrongLen) ==> proof.nonces@.len() != sp_proofsize(),
+//@+    r matches Err(Error::TooBig) ==> exists|a: int| 0 <= a < proof.nonces@.len() && #[trigger] proof.nonces@[a] > self.params.edge_mask,
+//@+    r matches Err(Error::NotAscending) ==> exists|a: int| 1 <= a < proof.nonces@.len() && proof.nonces@[a - 1] >= #[trigger] proof.nonces@[a],
 //@+    r.is_ok() ==> proof.nonces@.len() == sp_proofsize()
 //@+        && (forall|a: int| 0 <= a < proof.nonces@.len() ==> #[trigger] proof.nonces@[a] <= self.params.edge_mask)
 //@+        && (forall|a: int| 1 <= a < proof.nonces@.len() ==> proof.nonces@[a - 1] < #[trigger] proof.nonces@[a])
